@@ -67,22 +67,22 @@ def Defects.asImplemented : Defects :=
     -- (repair: findings/C17-deleted-row-leaves-index.patch)
     --
     --
-    deleteLeavesIndex := true,
+    deleteLeavesIndex := false,
     -- `Node::filter_existing` / `add_nodes`: synchronised rows are written with `index: false`
     -- (repair: findings/C17-synchronised-rows-unindexed.patch)
     --
     --
-    ingestUnindexed := true,
+    ingestUnindexed := false,
     -- `Entity::update` keeps the `enable_full_text` of the first declaration
     -- (repair: findings/C17-index-flag-of-later-version.patch)
     --
     --
-    toggleIgnored := true,
+    toggleIgnored := false,
     -- `Node::write` deletes the previous text without looking whether the row is in the index
     -- (repair: findings/C17-delete-previous-text-when-indexed.patch)
     --
     --
-    deleteUnguarded := true,
+    deleteUnguarded := false,
     -- no re-indexing when a flag changes: stays, with or without the repairs
     toggleNoReindex := true }
 
@@ -350,7 +350,8 @@ def ingestRow (d : Defects) (dst : Site) (r : Row) : Site :=
 
 /-- rows of entity `e`: those unknown locally or newer than the local version, in creation order -/
 def pullRows (d : Defects) (src : Site) (e : Ent) (dst : Site) : Site :=
-  let cand := src.rows.filter fun r => r.ent = e
+  -- /repo ffeda5d: an announced id that carries a deletion record at the destination is not requested
+  let cand := src.rows.filter fun r => r.ent = e && !(dst.tombs.any fun t => t.n = r.n)
   let fetched := cand.filter fun r =>
     match findRow r.n dst.rows with
     | none => true
